@@ -90,12 +90,14 @@ type history struct {
 	uploads      []time.Time
 	log          []string
 	inconsistent bool // the generator deleted a child while the parent referenced it
-	ties         int  // same-second upload pairs (child edit, then parent version under another changeset)
+	dates        string // pre-commit part: "2009" | "late" (after osm.CommitInfoStart, still no Committed) | "straddling" (crossing it)
+	ties         int    // same-second upload pairs (child edit, then parent version under another changeset)
 }
 
 var (
 	baseCommit = time.Date(2015, 3, 1, 12, 0, 0, 0, time.UTC)
 	basePre    = time.Date(2009, 3, 1, 12, 0, 0, 0, time.UTC)
+	baseLate   = time.Date(2013, 2, 1, 12, 0, 0, 0, time.UTC) // no Committed values although after osm.CommitInfoStart
 )
 
 var thCommit = []time.Duration{30 * time.Minute, 0, time.Second, time.Minute, 2 * time.Hour}
@@ -192,7 +194,20 @@ func genHistory(t *kit.Tape, o genOpts) *history {
 	clock := baseCommit
 	jitMax := 0
 	if pre {
+		// The library decides per element by Committed, not by date: data without Committed values is
+		// handled by timestamp and threshold whatever its date.
 		clock = basePre
+		h.dates = "2009"
+		switch t.Draw(3) {
+		case 1:
+			clock = baseLate
+			h.dates = "late"
+		case 2:
+			if h.regime == "pre" {
+				clock = osm.CommitInfoStart.Add(-time.Duration(t.Draw(6))*(3*h.th+time.Second) - time.Duration(t.Draw(3))*time.Second)
+				h.dates = "straddling"
+			}
+		}
 		jitMax = int((h.th/2 - time.Second) / time.Second)
 		if jitMax < 0 {
 			jitMax = 0
@@ -209,6 +224,25 @@ func genHistory(t *kit.Tape, o genOpts) *history {
 	noJitter := false // the element timestamp is exactly the upload time
 	preEra := pre
 	var cs osm.ChangesetID
+	// Changesets stay open for a while: an upload goes through a new changeset or through one of the
+	// few still open, so changeset ids do not rise with time or with versions.
+	var openCS []osm.ChangesetID
+	nextCS := osm.ChangesetID(1000)
+	drawCS := func(not osm.ChangesetID) osm.ChangesetID {
+		if len(openCS) > 0 && t.Draw(3) == 2 {
+			if c := openCS[t.Draw(len(openCS))]; c != not {
+				return c
+			}
+		}
+		c := nextCS
+		nextCS += osm.ChangesetID(1 + t.Draw(3))
+		if len(openCS) < 3 {
+			openCS = append(openCS, c)
+		} else {
+			openCS[int(c)%3] = c
+		}
+		return c
+	}
 	note := func(f string, a ...interface{}) { h.log = append(h.log, fmt.Sprintf(f, a...)) }
 
 	stamp := func(v *ver) {
@@ -354,7 +388,7 @@ func genHistory(t *kit.Tape, o genOpts) *history {
 	var tieKid *key // the previous upload was a same-second upload that edited this child
 	for u := 0; u < nUploads; u++ {
 		upload = u
-		cs = osm.ChangesetID(1000 + u)
+		cs = drawCS(cs) // never the previous upload's: a same-second pair needs two changesets
 		if u == switchAt {
 			preEra = false
 		}
@@ -454,10 +488,20 @@ func genHistory(t *kit.Tape, o genOpts) *history {
 				}
 				k := vk[t.Draw(len(vk))]
 				n := 2 + t.Draw(3)
+				uploadCS := cs
 				for i := 0; i < n; i++ {
+					if i > 0 && t.Chance(1, 3) {
+						// another upload in the same second, through another open changeset
+						cs = drawCS(0)
+					}
 					v := addKid(k, true)
-					note("  %s", v)
+					if v.cs != uploadCS {
+						note("  %s (changeset %d)", v, v.cs)
+					} else {
+						note("  %s", v)
+					}
 				}
+				cs = uploadCS
 			case opCreate:
 				done := false
 				for _, k := range gen {
